@@ -881,6 +881,16 @@ class TableEngine:
                     a = list(t.traverse())[y]
                 if via != "get_row":
                     a_vals = ts.norm(a.get_values())
+                else:
+                    # a copy of ANOTHER position of the same run is taken meanwhile: the live row stays where it is
+                    rn, ri = tv.row_run_info(y)
+                    if rn > 1:
+                        y2 = y + 1 if ri < rn - 1 else y - 1
+                        a_y = a.y
+                        t.get_row(y2)
+                        if a.y != a_y:
+                            return [Violation("C10", "clone-modified-original", name, ["copy_of_another_position_of_the_run"], None,
+                                              f"taking a copy of row {y2} changed the position of the live row of {y} to {a.y}")]
             else:
                 if x >= len(tv.rows[y]):
                     return []
